@@ -1,4 +1,5 @@
 import GohtVerif.Model.Exec
+import GohtVerif.Proofs.Lemmas.Grows
 /-! # C01 — rendered HTML is the document the template denotes (control flow and structure)
 
 The run-time model `execKids` interprets the parsed tree; these theorems state what a control-flow
@@ -90,6 +91,17 @@ theorem siblings_in_order (fuel : Nat) (c : Ctx) (t : Tok) (rest : List Node) (b
     execKids (fuel+1) c (.script t :: rest) buf =
       (do let buf ← execNode fuel c (.script t) buf; execKids fuel c rest buf) := by
   simp [execKids]
+
+/-- **What has been written is never altered** — for every node of every kind, every context and every
+buffer: when the node succeeds, the buffer it was given is still there, unchanged and in place, below what
+the node wrote (chunks are kept newest first). Later siblings, nested blocks, `@render` callees and
+`@children` blocks can only add output after what precedes them in the document. -/
+theorem node_only_appends (fuel : Nat) (c : Ctx) (n : Node) (buf b : Buf)
+    (h : execNode fuel c n buf = .ok b) : buf <:+ b := (GL.Grows.grows fuel).1 c n buf b h
+
+/-- … and the same for every list of siblings (control lines, loops and switches included). -/
+theorem siblings_only_append (fuel : Nat) (c : Ctx) (ks : List Node) (buf b : Buf)
+    (h : execKids fuel c ks buf = .ok b) : buf <:+ b := (GL.Grows.grows fuel).2 c ks buf b h
 
 -- PLANNED T1: nesting follows tab depth — Parser.parse (lineTokens lines) = offsideTree lines for every validIndents line list
 -- PLANNED T2: emitText t = printIR (emitIR t); block structure of silent-script chains in the generated Go
